@@ -81,8 +81,17 @@ def dispatcher(ctx, rep, clause):
         collect(node.body, None)
         for st, guard in rets:
             g = st.value
+            # the spans may be a one-shot iterator (the semi-/non-enzymatic generators pass one): every return
+            # expression consumes `spans` exactly once
+            uses = [y for y in ast.walk(g) if isinstance(y, ast.Name) and y.id == 'spans']
+            ob(rep, 'SIB-dispatch', RET, f"'{rtype}'" + (f' [{guard}]' if guard else '') + ': the spans are consumed once',
+               len(uses) == 1, 'one pass', f'`{norm_stmt(g)[:90]}` reads `spans` {len(uses)} times: when it is a generator '
+               f'the consumers share it, so each peptide is paired with the next span and every other peptide is lost',
+               f.loc(st), clause)
             if not isinstance(g, ast.GeneratorExp):
-                raise AnalysisError(f'{RET}: return for {rtype} is not a generator expression')
+                if len(uses) == 1:
+                    raise AnalysisError(f'{RET}: return for {rtype} is not a generator expression')
+                continue
             n_exprs += 1
             gen = g.generators[0]
             ok_iter = isinstance(gen.target, ast.Name) and norm_stmt(gen.iter) == 'spans' and len(g.generators) == 1 \
@@ -127,7 +136,7 @@ def dispatcher(ctx, rep, clause):
        'five branches', f'handled {sorted(handled)}', f.loc(), 'C07b')
     ob(rep, 'EXH', RET, 'any other return type raises', isinstance(f.node.body[-1], ast.Raise), 'raise ValueError',
        'an unknown return type falls through silently', f.loc(), 'C07b')
-    rep.floor('SIB-dispatch', 'peptide-producing expressions in the dispatcher', n_exprs, 9)
+    rep.floor('SIB-dispatch', 'peptide-producing expressions in the dispatcher', n_exprs, 3)
 
 
 def front_ends(ctx, rep, clause):
